@@ -45,9 +45,17 @@ fn apply_fixes(src: &str, fixes: &[Autofix]) -> String {
     fixes.sort_by_key(|b| std::cmp::Reverse(b.position.start_offset));
 
     let mut result = src.to_owned();
+    // The start of the earliest edit applied so far. An edit that
+    // overlaps it would be applied to text that has already moved,
+    // so leave it for the next run.
+    let mut applied_start = src.len();
     for fix in fixes {
         let start = fix.position.start_offset;
         let end = fix.position.end_offset;
+        if end > applied_start {
+            continue;
+        }
+        applied_start = start;
         result = format!("{}{}{}", &result[..start], fix.new_text, &result[end..]);
     }
     result
